@@ -165,16 +165,20 @@ def main(tier, seed):
     # plus long histories over every two-word alphabet (repeated periods, long alternations)
     seen_h = set(hs)
     hs = hs + [h for h in R.long_histories(8 if tier == "quick" else 11) if h not in seen_h]
+    # ... and, for the first two layouts only, every history up to 7 (thorough 9) words over each three-word alphabet
+    seen_h = set(hs)
+    hs3 = [h for h in R.long_histories(6 if tier == "quick" else 9, pairs=("dtx", "dat", "dax", "atx")) if h not in seen_h]
     items = []
     L = layouts(tier)
-    for lay in L:
-        for i in range(0, len(hs), 40):
-            items.append(dict(layout=lay, histories=hs[i:i + 40], seed=seed))
+    for li, lay in enumerate(L):
+        hh = hs + (hs3 if li < 2 else [])
+        for i in range(0, len(hh), 40):
+            items.append(dict(layout=lay, histories=hh[i:i + 40], seed=seed))
     res = core.Result()
     for d in core.parallel("mc.props.c06", "work", items, seed=seed):
         res.merge(d)
     res.states = len(L) * 4 * 5
-    res.bounds.update(two_word_history_depth=8 if tier == "quick" else 11, history_depth=depth, layouts=len(L), histories_per_layout=len(hs))
+    res.bounds.update(three_word_history_depth=6 if tier == "quick" else 9, two_word_history_depth=8 if tier == "quick" else 11, history_depth=depth, layouts=len(L), histories_per_layout=len(hs))
     rule = (
         "every driver-station history up to the stated depth (boot word + one word per iteration, including direct switches between "
         "enabled modes, then endCompetition) for every layout, run through the real startCompetition(); lifecycle monitors on the callback log: "
